@@ -1,6 +1,7 @@
 SPECIFICATION CSpec
 CONSTANTS
   Fused = TRUE
+  SoftReest = FALSE
   MaxAdds = 1000000
   MaxHeight = 1000000
   MaxDisc = 1000000
